@@ -80,7 +80,7 @@ theorem clean_elem (T i : String) (d : List (String × J))
     unfold cleanHere
     rw [hlk]
     simp [J.eraseKey, eraseKey_not_mem hid]
-  rw [clean, hhere, hdne]
+  rw [clean_nil, hhere, hdne]
 
 /-- what must hold of a scrubbed element: no `id`, no `__typename`, not empty -/
 def GoodElem (d : List (String × J)) : Prop := "id" ∉ J.keys d ∧ "__typename" ∉ J.keys d ∧ d ≠ []
@@ -89,10 +89,10 @@ theorem cleanList_elems (T : String) (dOf : String → List (String × J)) : ∀
     (∀ i ∈ ids, GoodElem (dOf i)) →
     cleanList [(T, ["id"])] [] (ids.map (fun i => J.obj (("id", .str i) :: dOf i)))
       = (ids.map (fun i => J.obj (dOf i)), ids.isEmpty)
-  | [], _ => by simp [cleanList]
+  | [], _ => by simp [cleanList_nil]
   | i :: is, hd => by
     have hi := hd i (by simp)
-    rw [List.map_cons, cleanList, clean_elem T i (dOf i) hi.1 hi.2.1 hi.2.2,
+    rw [List.map_cons, cleanList_obj, clean_elem T i (dOf i) hi.1 hi.2.1 hi.2.2,
       cleanList_elems T dOf is (fun x hx => hd x (by simp [hx]))]
     simp
 
@@ -104,7 +104,7 @@ theorem stage_scrub (T q : String) (ids : List String) (dOf : String → List (S
       = [(q, .arr (ids.map (fun i => J.obj (dOf i))))] := by
   have hlq : ∀ v, J.lookup q [(q, v)] = some v := by intro v; simp [J.lookup]
   simp only [cleanAll, List.foldl_cons, List.foldl_nil, unhash, List.isEmpty_cons, Bool.false_eq_true, ↓reduceIte]
-  rw [clean, hlq]
+  rw [clean_cons, hlq]
   simp only [cleanList_elems T dOf ids hd]
   cases ids <;> simp [J.setKey]
 
